@@ -173,7 +173,7 @@ def check(ctx: Ctx) -> None:
     ctx.decides = ("the duplicate-key test consults the container each store writes (attributes and env:); identity methods depend on the spec text "
                    "only; key/value are the complementary slices around the first '='; bare key -> True; __getattr__ -> None; underscore keys "
                    "rejected; the auto-id counter is read, incremented and checked inside its lock; explicit ids are checked before any process "
-                   "exists; the container protocol methods read one list.")
+                   "exists; the id of a gateway is tested against the group again right before it is appended (registration); the container protocol methods read one list.")
     ctx.not_decided = "all strings over the alphabet are not enumerated (the claim follows from the split shape)."
     fx = repo.func("xspec.XSpec.__init__")
     sp = _spec_paths(repo, fx)
